@@ -90,7 +90,7 @@ theorem c03_compact (P : Prims) (E : Env) (K : KeyEnv) (L : JwsLaws P E) (reg : 
     (hnone : ∀ algv alg, pyGetItemStr prot "alg" = .ok algv → reg.getAlg algv = .ok alg → alg.cls ≠ "NoneAlgModel")
     (h : serializeCompact P E K reg prot payload (.base (.key sk)) = .ok (tok, prot')) :
     ∃ o, deserializeCompact P E K reg tok (.base (.key pk)) = .ok o ∧ o.prot = prot ∧ prot' = prot ∧ o.payload = payload := by
-  simp only [serializeCompact, bind_eq_ok, guessKey, pure_eq_ok] at h
+  simp only [serializeCompact, bind_eq_ok, guessKey, guessKeyBase, pure_eq_ok] at h
   obtain ⟨u1, hch, algv, hav, alg, hga, ⟨k, kid?⟩, hg, protx, hpx, u2, hu, u3, hkt, u4, _, hseg, hhs, sig, hsig, hout⟩ := h
   simp at hg
   obtain ⟨rfl, rfl⟩ := hg
@@ -122,7 +122,7 @@ theorem c03_compact (P : Prims) (E : Env) (K : KeyEnv) (L : JwsLaws P E) (reg : 
     have hval : validateCompact P E K reg
         { prot := .obj kvs, payload := payload, hseg := b64e js, pseg := b64e payload, sseg := b64e sig }
         (.base (.key pk)) = .ok true := by
-      simp only [validateCompact, guessKey]
+      simp only [validateCompact, guessKey, guessKeyBase]
       cases u1; cases u3
       have hkt' : alg.checkKeyType pk = .ok () := by
         simpa [JwsAlgRow.checkKeyType, hpub.kty] using hkt
